@@ -607,3 +607,49 @@ def _flat(node):
                 walk(y)
     walk(node)
     return out
+
+
+def flavour_siblings(R, F, fn_pat, key_prefix, why, ignore=r'$^', floor=2):
+    """SIBLINGS over the payload flavours of one operation (`X::<.., Payload, ..>::op` vs `X::<.., [Payload], ..>::op`, custom payload ...):
+    every crate-internal call the sized reference makes is made at least as often by each sibling, and the sibling consults the same
+    `self.<field>` flags in its branch conditions.  Extra calls of a sibling (slice length handling) are not reported."""
+    import collections
+    from .core import sym, sym_nstr
+    groups = collections.defaultdict(list)
+    for f in F.find_fns(fn_pat):
+        if f.kind == 'closure':
+            continue
+        groups[(core.strip_generics(f.id))].append(f)
+    n = 0
+
+    def sig(f):
+        cs = collections.Counter()
+        for s_ in f.sites:
+            if s_.is_call and s_.callee and not s_.macro and s_.callee.startswith('iceoryx2') and not re.search(ignore, s_.callee):
+                cs[re.sub(r'::<.*?>::', '::', s_.callee)] += 1
+        fields = collections.Counter()
+        for b in range(len(f.blocks)):
+            t = f.blocks[b]['t']
+            if t[0] == 'switch':
+                for x in set(re.findall(r'self\.(\w+)', sym_nstr(sym(f, t[1])))):
+                    fields[x] += 1
+        return cs, fields
+    for gid, fs in sorted(groups.items()):
+        if len(fs) < 2:
+            continue
+        ref = [f for f in fs if '[' not in f.id.split('>::')[0]]
+        ref = ref[0] if ref else fs[0]
+        rs = sig(ref)
+        for f in fs:
+            if f is ref:
+                continue
+            n += 1
+            s_ = sig(f)
+            missing = ['%s (%d < %d)' % (core.short(k), s_[0][k], v) for k, v in rs[0].items() if s_[0][k] < v]
+            missing += ['branch on self.%s (%d < %d)' % (k, s_[1][k], v) for k, v in rs[1].items() if s_[1][k] < v]
+            flav = re.sub(r'^.*?::<(.*)>::\w+$', r'\1', f.id)
+            flav = 'slice' if '[' in flav and 'CustomPayloadMarker' not in flav else ('custom' if 'CustomPayloadMarker' in flav else 'other')
+            idx = [g for g in fs if g is not ref].index(f)
+            R.ob('SIBLINGS', '%s::%s::%s#%d::does-what-the-sized-sibling-does' % (key_prefix, gid.replace('iceoryx2::', ''), flav, idx), not missing,
+                 'compared with %s:%s this flavour %s; %s' % (ref.file.rsplit('/', 1)[-1], ref.line, 'makes the same internal calls and branches' if not missing else 'lacks: ' + ', '.join(missing), why), '%s:%s' % (f.file, f.line), f)
+    R.floor('payload-flavour siblings (%s)' % key_prefix, n, floor)
